@@ -62,7 +62,7 @@ def cases(ctx):
         yield {
             "pos": pos, "neg": neg, "ep": ep, "en": en, "sc": sc, "ec": ec, "thr": thr, "kind": kind,
             "via": str(rng.choice(["ctor", "ctor", "from_labels", "swap2", "sorted", "boot_replacement", "boot_smoothing", "boot_single_pass", "boot_proportion",
-                                   "boot_by_label", "group_item", "sample_swap", "replaced", "replaced"])),
+                                   "boot_by_label", "group_item", "sample_swap", "replaced", "replaced", "relabelled", "relabelled"])),
             "_seed": int(rng.integers(1 << 31)),
             "pos_form": str(rng.choice(gen.FORMS)), "neg_form": str(rng.choice(gen.FORMS)), "thr_form": str(rng.choice(gen.FORMS)),
         }
@@ -122,6 +122,13 @@ def execute(ctx, case):
         s.cm(np.asarray(thr, dtype=float))
         s.tpr(0.0), s.fpr(0.0), s.nb_hard_pos, s.nb_all_neg, s.hard_pos_ratio
         s.pos, s.neg = np.sort(np.asarray(pos)), np.sort(np.asarray(neg))
+    if via == "relabelled":
+        # built under another configuration, queried, then the public label fields re-assigned with the plain strings the constructor accepts
+        rs = np.random.default_rng(case.get("_seed", 0))
+        o_sc, o_ec = gen.CFG[int(rs.integers(0, 4))]
+        s = Scores(pos, neg, nb_easy_pos=ep, nb_easy_neg=en, score_class=o_sc, equal_class=o_ec)
+        s.cm(np.asarray(thr, dtype=float))
+        s.score_class, s.equal_class = str(sc), str(ec)
     if via == "swap2":
         s = s.swap().swap()  # library-made is_sorted=True objects; must be the same object semantically
     # objects the library derives itself (often with is_sorted=True): the decision-rule counting must hold on them too;
@@ -142,7 +149,7 @@ def execute(ctx, case):
         if via == "sample_swap":
             s = s.swap()
         pos, neg, ep, en = np.asarray(s.pos), np.asarray(s.neg), int(s.nb_easy_pos), int(s.nb_easy_neg)
-        sc, ec = s.score_class.value, s.equal_class.value
+        sc, ec = monitors.cfg_of(s)
     elif via == "group_item":
         from score_analysis import GroupScores
 
